@@ -42,7 +42,7 @@ func add(rootGoitPath, path string, index *store.Index) error {
 	if err != nil {
 		return err
 	}
-	cleanedRelPath := strings.ReplaceAll(relPath, `\`, "/") // replace backslash with slash
+	cleanedRelPath := filepath.ToSlash(relPath) // the separator of this platform becomes a slash
 	if cleanedRelPath == ".." || strings.HasPrefix(cleanedRelPath, "../") {
 		return fmt.Errorf("fatal: %s: '%s' is outside repository", path, path)
 	}
@@ -83,7 +83,7 @@ var addCmd = &cobra.Command{
 				// If the file does not exist but is registered in the index, delete it from the index
 				// but not delete here, just check it
 				cleanedArg := filepath.Clean(arg)
-				cleanedArg = strings.ReplaceAll(cleanedArg, `\`, "/")
+				cleanedArg = filepath.ToSlash(cleanedArg)
 				_, _, isEntryFound := client.Idx.GetEntry([]byte(cleanedArg))
 				if !isEntryFound {
 					return fmt.Errorf(`path "%s" did not match any files`, arg)
@@ -94,7 +94,7 @@ var addCmd = &cobra.Command{
 		for _, arg := range args {
 			// check if the arg is the target of excluding path
 			cleanedArg := filepath.Clean(arg)
-			cleanedArg = strings.ReplaceAll(cleanedArg, `\`, "/")
+			cleanedArg = filepath.ToSlash(cleanedArg)
 			if client.Ignore.IsIncluded(cleanedArg, client.Idx) {
 				continue
 			}
